@@ -50,6 +50,9 @@ type Gates struct {
 	// slow-to-stop tasks: after the stop was delivered they stay inside Run until the driver releases them
 	slow     map[gateKey]bool
 	stopping map[gateKey]chan struct{}
+	// BeforeRun, if set, is called when the runner is handed a task, before it decides whether to accept it (a driver can
+	// let a cancel be delivered exactly between the scheduler's launch decision and the runner's entry)
+	BeforeRun func(job, taskName string)
 	// SlowAuto, if set, decides how long a task keeps running after it was told to stop
 	SlowAuto func(job, taskName string) time.Duration
 	// Auto, if set, is asked when a task reaches its gate; if it returns ok the task proceeds with that outcome after the delay
@@ -277,6 +280,12 @@ func (m *MonRunner) Run(t *task.Task) error {
 		}
 	}
 
+	m.gates.mu.Lock()
+	before := m.gates.BeforeRun
+	m.gates.mu.Unlock()
+	if before != nil {
+		before(jobID, t.Name)
+	}
 	m.mu.Lock()
 	if m.canceled {
 		m.log.Add(Event{Kind: KRunRefused, Job: jobID, Task: t.Name, Pipe: m.Pipeline})
@@ -372,4 +381,11 @@ func (m *MonRunner) Cancel() {
 // Finish implements runner.Runner
 func (m *MonRunner) Finish() {
 	m.log.Add(Event{Kind: KFinish, Job: m.JobID, Pipe: m.Pipeline})
+}
+
+// SetBeforeRun installs the BeforeRun hook
+func (g *Gates) SetBeforeRun(f func(job, taskName string)) {
+	g.mu.Lock()
+	g.BeforeRun = f
+	g.mu.Unlock()
 }
